@@ -27,6 +27,24 @@ CHECKS = {
  "C06": ("Scheduler", "6 C06", "TLC explores the completer at every position and clock, completion from outside, and later requests/registrations, checking "
          "status is final, nothing runs after completion and later requests change nothing. The same products and random histories are executed on the "
          "real Model; TLC validates is_running/bool/clock/run events after every call."),
+ "C03": ("World", "6 C03", "World.tla models the component pools exactly as the code maintains them (register on join, deregister on leave, manual calls) next to the "
+         "declarative listing Ideal(m,T); TLC shows pool = Ideal for every history of sanctioned operations over 2 models x agents x,x,y x 2 types, and that every "
+         "break of the mirror is caused by one of the named deviation actions F1/F2/F3/F6 (known findings; negative controls). Graph walks and random histories in "
+         "plain/continuous/grid/line/2-D worlds are judged by TLC: the listing, its 'none' form and the environment order must equal the specification state after "
+         "every call; traces needing only listed deviations print KNOWN-FINDING, anything else is a violation."),
+ "C04": ("World", "6 C04", "TLC explores join/leave/lookup with every error path (duplicate id, unknown id, out-of-bounds placement per axis and side) enabled in every "
+         "reachable state of plain, continuous and grid worlds (rejected actions are UNCHANGED vars by construction; one-per-id, leave-always-enabled as invariants). "
+         "Every edge of the error-injection graph is replayed on real environments with lookups of every id after each step; TLC compares len/iteration/lookup/listing "
+         "and every agent's component set after every call."),
+ "C08": ("World", "6 C08", "Per-axis kernels (Clamp, Wrap, InRange) are model-checked for containment and exactness over all positions/deltas up to multi-lap wraps; "
+         "World.tla places and moves agents in grid/continuous worlds with non-cubic extents (incl. 0) and wrap on/off. Graph walks and random add/move/move_to/remove "
+         "histories on SpaceWorld/DiscreteWorld/LineWorld/GridWorld are judged by TLC: every agent's xyz() after every call must equal the specification's position."),
+ "C12": ("World", "6 C12", "TLC checks that the code's min/max box equals the declarative per-axis leeway box on every reachable placement x query alphabet (negative "
+         "controls: box ignoring per-axis leeway; plain box in a wrapping world = finding F5). Random populations and queries on real worlds are judged by TLC "
+         "against the seam-aware definition; an answer equal to the plain box in a wrapping world is KNOWN-FINDING F5, any other difference a violation."),
+ "C13": ("World", "6 C13", "TLC checks the code's filter algorithm equal to the declarative Match over every population of 3 agents x 2 types x tags {0,1,7} and all "
+         "templates/tag filters (negative control: `if tag:`). On real environments get_agents must equal the filter in joining order, 200 reseeded random picks must "
+         "cover exactly the match set, shuffle must be a permutation of it, the returned lists are mutated by the driver and the environment must stay unchanged."),
 }
 
 TECH = "TLA+ specification model-checked with TLC; implementation traces (spec->code graph walks and code->spec drivers) validated by TLC against the trace specification"
